@@ -165,6 +165,15 @@ CHECKS = {
             '3 570 profiles + BFS depth 5/7 from 5 roots (188 states, 1 918 transitions quick); EE round trip on the monotone prefix.',
             'While normalised only profile/profile_error scale is demanded (the property asks that unnormalize restores).',
             'DESIGN.md section 4 C19'),
+    'C20': ('exploration',
+            'exhaustive enumeration of a lattice of noise-free galaxies (eps x PA x centre x radial law x initial geometry x growth x '
+            'integrmode x fix flags x sma range), each fitted by the real Ellipse.fit_image and compared with the analytic truth; '
+            'all integer points of a 9x9 window x 24 geometries for the scalar/array to_polar twins',
+            '220 fits quick / 2 416 thorough (union of full-product blocks), plus 7 776 to_polar calls; sorted strictly increasing sma '
+            'within [minsma, maxsma], documented sma sequence, fixed parameters exact, accuracy within max(3 x reported error, 10 x '
+            'calibrated deviation) on isophotes well-sampled by an input-only rule, build_ellipse_model inside the fitted annulus, image untouched.',
+            'Lattice points only (continuum between them not covered); tolerances calibrated on 35 173 isophotes of the pinned tree.',
+            'DESIGN.md section 4 C20'),
 }
 
 NOT_BUILT_REASON = ('check not built yet (bounded exhaustive design exists in DESIGN.md section 4; '
